@@ -11,6 +11,7 @@ import (
 	"encoding/json"
 	"fmt"
 	"sync"
+	"sync/atomic"
 	"time"
 
 	stk "github.com/JesseCoretta/go-stackage"
@@ -23,6 +24,11 @@ type SchedInput struct {
 	Init  []int   `json:"init"`
 	Progs [][]HOp `json:"progs"`
 	Sched []int   `json:"sched"`
+	// Pol: an accept-everything push policy is installed (same content as
+	// without one).  Its closure is a scheduling point, but only when it finds
+	// the stack's lock NOT held - which never happens while Push runs the
+	// policy inside its critical section.
+	Pol bool `json:"pol,omitempty"`
 }
 
 var schedMu sync.Mutex // the hook is process-global: one scheduled case at a time
@@ -76,7 +82,14 @@ func runSched(raw json.RawMessage) (res *Result, err error) {
 	_ = cur
 	// which goroutine is running right now (only one is ever released at a time)
 	var running int = -1
+	var lockHeld int32
 	stk.VerifSetPoint(func(ev string, id uintptr) {
+		if id == shared && ev == "lock.held" {
+			atomic.StoreInt32(&lockHeld, 1)
+		}
+		if id == shared && ev == "lock.released" {
+			atomic.StoreInt32(&lockHeld, 0)
+		}
 		if id != shared || ev != "lock.want" {
 			return
 		}
@@ -88,6 +101,15 @@ func runSched(raw json.RawMessage) (res *Result, err error) {
 		<-grant[tid]
 	})
 	defer stk.VerifSetPoint(nil)
+	if in.Pol {
+		s.SetPushPolicy(func(...any) error {
+			if tid := running; tid >= 0 && atomic.LoadInt32(&lockHeld) == 0 {
+				events <- gEvent{tid: tid, kind: "want"}
+				<-grant[tid]
+			}
+			return nil
+		})
+	}
 
 	results := make([][]string, n)
 	recs := make([][]any, n)
@@ -242,6 +264,9 @@ func runSched(raw json.RawMessage) (res *Result, err error) {
 	coq := fmt.Sprintf("(MkSC %d%%N %s %s %s %s %s %s %s %s)", kindN[in.Kind], capT, coqBool(in.Fifo), coqList(initT),
 		coqList(progT), coqList(schedT), coqList(resT), coqList(finalT), coqBool(panicked != "" || deadlock))
 	tags := []string{fmt.Sprintf("threads:%d", n)}
+	if in.Pol {
+		tags = append(tags, "push-policy")
+	}
 	if panicked != "" {
 		tags = append(tags, "panic")
 	}
@@ -340,6 +365,9 @@ func genSched(ctx *Ctx, emit func(any, string)) {
 						}
 						for _, sch := range interleavings([]int{2, 2}, 0) {
 							emit(SchedInput{Kind: "AND", Cap: cp, Fifo: fifo == 1, Init: init, Progs: [][]HOp{{a}, {b}}, Sched: sch}, "exhaustive")
+							if a.Op == "push" && fifo == 0 {
+								emit(SchedInput{Kind: "AND", Cap: cp, Init: init, Progs: [][]HOp{{a}, {b}}, Sched: sch, Pol: true}, "exhaustive")
+							}
 						}
 					}
 				}
@@ -392,6 +420,7 @@ func genSched(ctx *Ctx, emit func(any, string)) {
 			}
 		}
 		in.Sched = sch
+		in.Pol = r.Pct(30)
 		emit(in, "random")
 	}
 }
